@@ -420,6 +420,46 @@ def _dropped(fn_node, sig_of):
     return out
 
 
+# own parameters that a same-named pass-through of the pinned tree leaves to the callee's default although the function uses them itself
+# (read; kept as they are): function ident -> parameters
+_PARTIAL_PASS_CONFIRMED = {
+    "mpf/core/config_processor.py::ConfigProcessor._load_config_file_and_return_loaded_files": {"ignore_unknown_sections"},
+    "mpf/core/utility_functions.py::Util.dict_merge": {"deepcopy_both"},
+    "mpf/devices/light.py::Light._get_color_and_fade": {"current_time"},
+    "mpf/modes/service/code/service.py::Service._volume_change": {"focus_change"},
+}
+
+
+def _partially_passed(fn_node, sig_of):
+    """[(call, p)]: the call hands at least one of the function's parameters to the callee's parameter of the same name, the callee also
+    has a parameter p that the function has too, and p is not bound by the call (the callee's default applies instead of the caller's
+    value).  Unlike _dropped this also reports parameters the function uses elsewhere."""
+    fp, fk = _fn_params(fn_node)
+    own = set(fp) | set(fk)
+    out = []
+    if len(own) < 2:
+        return out
+    for c in ast.walk(fn_node):
+        if not isinstance(c, ast.Call):
+            continue
+        nm = c.func.attr if isinstance(c.func, ast.Attribute) else (c.func.id if isinstance(c.func, ast.Name) else None)
+        sg = sig_of(c) if callable(sig_of) and getattr(sig_of, "_by_call", False) else (sig_of(nm) if nm else None)
+        if not sg:
+            continue
+        cp, ck = sg
+        if any(isinstance(a, ast.Starred) for a in c.args) or any(k.arg is None for k in c.keywords):
+            continue
+        bound = set(cp[:len(c.args)]) | {k.arg for k in c.keywords if k.arg}
+        same = [p for p in own if (p in cp[:len(c.args)] and isinstance(c.args[cp.index(p)], ast.Name) and c.args[cp.index(p)].id == p) or
+                any(k.arg == p and isinstance(k.value, ast.Name) and k.value.id == p for k in c.keywords)]
+        if not same:
+            continue
+        for p in sorted(own):
+            if p in (set(cp) | set(ck)) and p not in bound:
+                out.append((c, p))
+    return out
+
+
 def params_not_dropped(chk):
     import json
     import os
@@ -463,6 +503,14 @@ def params_not_dropped(chk):
             chk.ob("DROP-0", "a pass-through hands on every parameter its callee also takes", False, "%s:%d" % (rel, c.lineno),
                    detail="`%s` of %s is accepted, used nowhere, and not handed to %s (which has a parameter `%s`): the callee's default is used" % (
                        p_, qual, src(c.func)[-40:], p_), construct=ident, text="parameter %s swallowed before %s" % (p_, src(c.func)[-30:]))
+        for c, p_ in _partially_passed(f.node, _resolver(repo, f, sigs)):
+            if p_ in _PARTIAL_PASS_CONFIRMED.get(ident, ()):
+                continue
+            chk.ob("DROP-0", "a call that hands a parameter on under its own name hands on every other parameter the callee shares with the caller", False,
+                   "%s:%d" % (rel, c.lineno),
+                   detail="%s passes some of its parameters to %s by name but not `%s`, which both have: the callee's default replaces the caller's value "
+                          "(7 such calls in the pinned tree, tabled; every other same-named pass-through is complete)" % (qual, src(c.func)[-40:], p_),
+                   construct=ident, text="parameter %s not handed to %s" % (p_, src(c.func)[-30:]))
     chk.ob("DROP-0", "no parameter of the analysed / anchored functions is swallowed by a pass-through (%d functions)" % n, True, "mpf:1", nontrivial=False)
 
 
